@@ -35,6 +35,9 @@ def ACOS(
     https://support.office.com/en-us/article/
         acos-function-cb73173f-d089-4582-afa1-76e5524b5d5b
     """
+    if number < -1 or number > 1:
+        raise xlerrors.NumExcelError(f'number {number} must be in [-1, 1]')
+
     return np.arccos(float(number))
 
 
@@ -324,6 +327,9 @@ def LN(
     https://support.office.com/en-us/article/
         ln-function-81fe1ed7-dac9-4acd-ba1d-07a142c6118f
     """
+    if number <= 0:
+        raise xlerrors.NumExcelError(f'number {number} must be positive')
+
     return math.log(number)
 
 
@@ -338,6 +344,11 @@ def LOG(
     https://support.office.com/en-us/article/
         log-function-4e82f196-1ca9-4747-8fb0-6c4a3abb3280
     """
+    if number <= 0 or base <= 0:
+        raise xlerrors.NumExcelError('number and base must be positive')
+    if base == 1:
+        raise xlerrors.DivZeroExcelError()
+
     return math.log(float(number), float(base))
 
 
@@ -351,6 +362,9 @@ def LOG10(
     https://support.office.com/en-us/article/
         log10-function-c75b881b-49dd-44fb-b6f4-37e3486a0211
     """
+    if number <= 0:
+        raise xlerrors.NumExcelError(f'number {number} must be positive')
+
     return np.log10(float(number))
 
 
@@ -365,6 +379,9 @@ def MOD(
     https://support.office.com/en-us/article/
         mod-function-9b6cd169-b6ee-406a-a97b-edf2a9dc24f3
     """
+    if divisor == 0:
+        raise xlerrors.DivZeroExcelError()
+
     return number % divisor
 
 
